@@ -637,6 +637,95 @@ def r9(ctx, r):
         r.expect(ok, kp, pushes[0], "prefix test", "keysWithPrefix does not test `key.compare(0, prefix.size(), prefix) == 0`", okdesc="prefix test compares exactly prefix.size() bytes")
 
 
+def r10(ctx, r):
+    """A key whose deadline has passed is ABSENT for the reference map even while the eviction worker has not removed it yet.  The
+    read paths hide it (R2); the mutators that act on an existing key only — persist, expireAt — must treat it as absent too, or
+    they give it a new lease of life: the key reappears in every read path and survives compaction and reopen."""
+    from ..finite import dominating_facts
+    fb = ctx.fb()
+    # helpers that decide 'expired' : bool methods of the store whose body compares an `expiry` with the system clock
+    helpers = set()
+    for g in fb.methods_of(KV):
+        if not g.ok:
+            continue
+        txt_now = any(x.get("k") == "call" and x.get("callee") == "std::chrono::system_clock::now" for x in g.nodes.values())
+        cmp_exp = any(common.cmp_parts(x) and any(y.get("k") == "member" and last(y["n"]) == "expiry" for y in walk(x)) for x in g.nodes.values() if x.get("k") in ("bin", "opcall"))
+        rets_bool = any(e.node.get("k") == "ret" and (strip_casts(e.node.get("v") or {}).get("t") == "bool" or common.cmp_parts(strip_casts(e.node.get("v") or {}))) for e in g.stmts())
+        if txt_now and cmp_exp and any(e.node.get("k") == "ret" and e.node.get("v") is not None for e in g.stmts()) and last(g.name) not in READ_APIS and len(list(g.stmts())) < 25 and not g.name.endswith(("persist", "expireAt")):
+            helpers.add(g.name)
+    for name in ("persist", "expireAt"):
+        f = kvf(ctx, name)
+        muts = [e for e in f.stmts() if e.node.get("k") == "mcall" and e.node.get("callee") == KV + "::writeLogEntry"]
+        muts += common.member_calls_on(f, KV + "::_expiry", ("erase", "emplace", "insert", "insert_or_assign", "try_emplace"))
+        muts += [e for e in f.stmts() if e.node.get("k") in ("opcall", "bin") and e.node.get("op") == "=" and any(x.get("k") == "member" and x["n"] == KV + "::_expiry" for x in walk(e.node["args"][0] if e.node["k"] == "opcall" else e.node["lhs"]))]
+        if not muts:
+            raise AnalysisBroken("%s: no mutation site found" % name)
+        for e in muts:
+            r.instance()
+            ok = False
+            for (c, t) in dominating_facts(f, e):
+                c0 = strip_casts(c)
+                if c0.get("k") == "mcall" and c0.get("callee") in helpers and not t:
+                    ok = True
+                co = common.cmp_oriented(c0, lambda x: any(y.get("k") == "call" and y.get("callee") == "std::chrono::system_clock::now" for y in walk(x)) or show(strip_casts(x)) == "now")
+                if co and show(strip_casts(co[1])).endswith("expiry") and ((co[0] == ">" and t) or (co[0] == "<=" and not t)):
+                    ok = True
+            r.expect(ok, f, e, "%s revives an expired key" % name, "KVStore::%s reaches `%s` for a key that exists in _kv without having established that its stored deadline has not passed (no dominating `expiry > now` / "
+                     "!isExpired(key)): for a key past its deadline that the eviction worker has not removed yet — hidden from every read path — this makes it permanent / gives it a new deadline, so it reappears in "
+                     "get/exists/keys/size and survives compaction and reopen" % (name, show(e.node)[:50]), okdesc="%s: acts only on a key that is not expired" % name)
+
+
+def r11(ctx, r):
+    """'cache sizes smaller than the key set' includes 0: the read cache evicts with erase(begin()), which is undefined on an empty
+    map.  Every begin()-erase / begin()-dereference in the store is behind a fact that makes the container non-empty."""
+    from ..finite import dominating_facts
+    fb = ctx.fb()
+    n = 0
+    for f in fb.in_file(KVF):
+        if not f.ok:
+            continue
+        for e in f.stmts():
+            nd = e.node
+            if not (nd.get("k") == "mcall" and last(nd.get("callee", "")) == "erase" and nd.get("args")):
+                continue
+            a0 = strip_casts(strip_wrappers(nd["args"][0]))
+            while a0 is not None and a0.get("k") in ("ctor", "cast") and a0.get("args"):
+                a0 = strip_casts(strip_wrappers(a0["args"][0]))
+            if not (a0 is not None and a0.get("k") == "mcall" and last(a0.get("callee", "")) in ("begin", "cbegin")):
+                continue
+            cont = field_of(nd.get("obj"))
+            n += 1
+            r.instance()
+            facts = dominating_facts(f, e)
+            ok = False
+            limits = []
+            for (c, t) in facts:
+                c0 = strip_casts(c)
+                if c0.get("k") == "mcall" and last(c0.get("callee", "")) == "empty" and field_of(c0.get("obj")) == cont and not t:
+                    ok = True
+                co = common.cmp_oriented(c0, lambda x: not any(y.get("k") == "mcall" and last(y.get("callee", "")) == "size" and field_of(y.get("obj")) == cont for y in walk(x)))
+                if co and any(y.get("k") == "mcall" and last(y.get("callee", "")) == "size" and field_of(y.get("obj")) == cont for y in walk(co[1])):
+                    # size() >= L / size() > L (true): non-empty when L > 0 resp. L >= 0
+                    if t and co[0] == ">":
+                        ok = True
+                    if t and co[0] == ">=":
+                        cv = const_value(co[2])
+                        if cv is not None and cv > 0:
+                            ok = True
+                        else:
+                            limits.append(show(strip_casts(co[2])))
+            for L in limits:
+                for (c, t) in facts:
+                    co = common.cmp_oriented(strip_casts(c), lambda x: const_value(x) == 0)
+                    if co and show(strip_casts(co[1])) == L and ((co[0] == "==" and not t) or (co[0] in (">", "!=") and t)):
+                        ok = True
+            r.expect(ok, f, e, "erase(begin()) on a possibly empty container", "%s evicts with %s.erase(%s.begin()) without a fact that makes it non-empty (known: %s): with a size limit of 0 the test `size() >= limit` holds "
+                     "on the empty map and the erase dereferences end() — the first set/get crashes" % (short(f.name), last(cont or "?"), last(cont or "?"), "; ".join(("" if t else "!") + show(c)[:40] for c, t in facts[-3:]) or "nothing"),
+                     okdesc="%s: begin()-erase on a non-empty container" % short(f.name))
+    if n < 1:
+        raise AnalysisBroken("no erase(begin()) site found in kvstore.hpp")
+
+
 def run(ctx, ck):
     ck.run_rule("C12-R1", "lock table of the store; cache maintained only under the store mutex", "A1 guarded-by + lock order", lambda r: r1(ctx, r))
     ck.run_rule("C12-R2", "every read path applies the expiry backstop", "A5 predicate abstraction, closed set of read APIs", lambda r: r2(ctx, r))
@@ -646,4 +735,6 @@ def run(ctx, ck):
     ck.run_rule("C12-R7", "journal record layout: writer and replay decide every optional field by the op code, identically", "A10 writer/reader table agreement", lambda r: r7(ctx, r))
     ck.run_rule("C12-R8", "a key leaves the value map and the expiry map together", "A2 pairing", lambda r: r8(ctx, r))
     ck.run_rule("C12-R9", "keys, prefixes and values are binary: no C-string function touches them; the prefix test is length-aware", "A10 closed set of forbidden callees + shape of the prefix test", lambda r: r9(ctx, r))
+    ck.run_rule("C12-R10", "persist / expireAt treat an expired, not yet evicted key as absent", "A5 dominating facts; helper summaries (which callee decides 'expired')", lambda r: r10(ctx, r))
+    ck.run_rule("C12-R11", "begin()-erase only on a container known non-empty (a size limit of 0 is a valid configuration)", "A5 dominating facts", lambda r: r11(ctx, r))
     ck.run_rule("C12-R6", "keys dropped at compaction never resurrect", "A2", lambda r: r6(ctx, r))
